@@ -1,4 +1,4 @@
-import Sop.Model.RegistryMap
+import Sop.Model.RegistryMW
 import Sop.Driver.Util
 /-!
 Line protocol of C21. Case header: `md <hashMod>`. Ops (ids are `high:low` in decimal, a payload is one token):
@@ -8,12 +8,48 @@ Line protocol of C21. Case header: `md <hashMod>`. Ops (ids are `high:low` in de
   rm   id [id …]                    registryOnDisk.Remove (one payload)
   gets id [id …]                    cold Get: `id=payload …` of the ids found, in request order, or `-`
   dump                              `nseg=<n> seg.block.slot=id …` (occupied cells in address order)
-Started with `--legacy` the driver runs the write probe of the unrepaired tree.
+Several writers (Sop.RegistryMW; one registry object each, one lock cache, one folder), one line per call a
+writer makes on the lock cache or a segment file:
+  spawn add|set|upd id payload      a writer starts registryOnDisk.Add / UpdateNoLocks / Update of one handle and runs
+  spawn rm id                       up to its first call (Remove for rm)                 -> start [=> result]
+  step <i>                          writer i makes its next call and runs up to the one after -> <event> [=> result]
+  giveup <i>                        the same, and its lock-retry time has lapsed
+events: `lk+ <key>` `lk- <key>` (DualLock granted / refused), `ul <key>`, `rd <seg>.<block>`, `wr <seg>.<block>`;
+keys: `S<block>.<slot>` (findAndAdd), `B<seg>.<block>.<slot>` (updateFileBlockRegion; slot 0 = the block),
+`I<id>` (Update). result: ok | err | err:full.
+Started with `--legacy` the driver runs the write probe of the unrepaired tree; with `--perslot` the block
+read-modify-write locks the slot instead of the block (the seeded change of the mutation trial).
 -/
 namespace Sop.Driver.C21
 open Sop.Driver Sop.RegistryMap
 
-abbrev S := Cfg × St String
+abbrev S := RegistryMW.MCfg × RegistryMW.Sys String
+
+def showKey : RegistryMW.Key → String
+  | .slot b s => s!"S{b}.{s}"
+  | .blk seg b s => s!"B{seg}.{b}.{s}"
+  | .id i => s!"I{i.1}:{i.2}"
+
+def showEv : RegistryMW.Ev → String
+  | .lk true k => s!"lk+ {showKey k}"
+  | .lk false k => s!"lk- {showKey k}"
+  | .ul k => s!"ul {showKey k}"
+  | .rd seg b => s!"rd {seg}.{b}"
+  | .wr seg b => s!"wr {seg}.{b}"
+  | .none => "idle"
+
+def showRes : Option RegistryMW.Res → String
+  | none => ""
+  | some .ok => " => ok"
+  | some .err => " => err"
+  | some .full => " => err:full"
+
+def parseKind : String → Option RegistryMW.Kind
+  | "add" => some .add
+  | "set" => some .set
+  | "upd" => some .upd
+  | "rm" => some .rm
+  | _ => none
 
 def parseId (s : String) : Option Id :=
   match s.splitOn ":" with
@@ -50,7 +86,7 @@ def updSeq (c : Cfg) : St String → List (Rec String) → St String × Out Stri
     | (st', .ok) => updSeq c st' rs
     | (st', o) => (st', o)
 
-def step (s : S) (ws : List String) : S × String :=
+def stepSeq (s : Cfg × St String) (ws : List String) : (Cfg × St String) × String :=
   let (c, st) := s
   match ws with
   | "add" :: rest =>
@@ -78,12 +114,41 @@ def step (s : S) (ws : List String) : S × String :=
     (s, " ".intercalate (s!"nseg={st.nseg}" :: cells))
   | _ => (s, "bad-op")
 
-def reset (legacy : Bool) (hdr : List String) : S :=
+def step (s : S) (ws : List String) : S × String :=
+  let (mc, sys) := s
+  match ws with
+  | ["spawn", k, i, p] =>
+    match parseKind k, parseId i with
+    | some k, some id =>
+      let sys' := RegistryMW.spawn mc sys k ⟨id, p⟩
+      ((mc, sys'), "start" ++ showRes (RegistryMW.result sys' sys.ws.length))
+    | _, _ => (s, "bad-op")
+  | ["spawn", "rm", i] =>
+    match parseId i with
+    | some id =>
+      let sys' := RegistryMW.spawn mc sys .rm ⟨id, ""⟩
+      ((mc, sys'), "start" ++ showRes (RegistryMW.result sys' sys.ws.length))
+    | none => (s, "bad-op")
+  | [op, i] =>
+    if op == "step" || op == "giveup" then
+      match i.toNat? with
+      | some i =>
+        let (sys', ev) := RegistryMW.step mc (op == "giveup") sys i
+        ((mc, sys'), showEv ev ++ showRes (RegistryMW.result sys' i))
+      | none => (s, "bad-op")
+    else
+      let ((_, st'), o) := stepSeq (mc.c, sys.st) ws
+      ((mc, { sys with st := st' }), o)
+  | _ =>
+    let ((_, st'), o) := stepSeq (mc.c, sys.st) ws
+    ((mc, { sys with st := st' }), o)
+
+def reset (legacy perSlot : Bool) (hdr : List String) : S :=
   match hdr with
-  | ["md", n] => ({ md := (n.toNat?).getD 1, legacy := legacy }, St.init)
-  | _ => ({ md := 1, legacy := legacy }, St.init)
+  | ["md", n] => ({ c := { md := (n.toNat?).getD 1, legacy := legacy }, perSlot }, { st := St.init })
+  | _ => ({ c := { md := 1, legacy := legacy }, perSlot }, { st := St.init })
 
 end Sop.Driver.C21
 
 def main (args : List String) : IO Unit :=
-  Sop.Driver.runLoop (Sop.Driver.C21.reset (args.contains "--legacy")) Sop.Driver.C21.step
+  Sop.Driver.runLoop (Sop.Driver.C21.reset (args.contains "--legacy") (args.contains "--perslot")) Sop.Driver.C21.step
